@@ -64,11 +64,27 @@ def compare_expressions(ctx, before, after, fresh, assignments, sides=None):
                 compared += 1
                 continue
             if isinstance(vb, tuple) or isinstance(va, tuple):
-                # a side that is itself an equation (chains): flatten and compare side by side, exactly
+                # a side that is itself an equation (chains): flatten and compare side by side, each within the
+                # rounding allowance derived for that side
                 fb, fa = sides_of(vb), sides_of(va)
-                if len(fb) == len(fa) and all(close_enough(x, y) for x, y in zip(fb, fa)):
-                    compared += 1
-                    continue
+                tols = flat_fold_tolerances(after, a, fresh, sides_of(ra.value)) if fresh else None
+                if len(fb) == len(fa):
+                    all_flat = sides_of(ra.value)
+                    ok = True
+                    for x, y in zip(fb, fa):
+                        if x == y:
+                            continue
+                        t = None
+                        if tols is not None:
+                            # locate this side among all flattened sides of the rewritten equation
+                            idx = [i for i, v in enumerate(all_flat) if v == y]
+                            t = max((tols[i] for i in idx), default=None) if idx else None
+                        if t is None or abs(x - y) > t:
+                            ok = False
+                            break
+                    if ok:
+                        compared += 1
+                        continue
                 return "mismatch", {"assignment": G.show_assignment(a), "before": _show(vb), "after": _show(va), "allowed_difference": 0.0, "side": sb}
             if sb is None:
                 tol, skip = _tol_value(after, a, fresh, ra, rb)
@@ -101,6 +117,27 @@ def compare_expressions(ctx, before, after, fresh, assignments, sides=None):
     ctx.count("comparisons", compared)
     ctx.count("comparisons_within_fold_rounding", rounded)
     return "ok", {"compared": compared}
+
+
+def flat_fold_tolerances(after, a, fresh, base_flat):
+    """Per flattened side of an equation (chain): 16 ulp x perturbation sensitivity to the fresh constants.
+    None when a perturbed evaluation is undefined."""
+    S = [Fraction(0)] * len(base_flat)
+    for c in fresh:
+        try:
+            v = X.const_value(c.value)
+        except (X.NonFinite, X.Malformed):
+            return None
+        if v == 0 or (v.denominator == 1 and not isinstance(X._plain(c.value), float)):
+            continue
+        r = X.try_eval(after, a, {id(c): v * (1 + X.ETA)})
+        if r is None:
+            return None
+        flat = sides_of(r.value)
+        if len(flat) != len(base_flat):
+            return None
+        S = [s_ + abs(p - q) / X.ETA for s_, p, q in zip(S, flat, base_flat)]
+    return [16 * X.ULP * s_ for s_ in S]
 
 
 def close_enough(x, y):
